@@ -710,8 +710,11 @@ func (a *Account) Save() error {
 
 	// save code
 	if a.codeIsDirty {
-		if err := a.db.SetContractCode(a.data.CodeHash, a.code); err != nil {
-			return err
+		// There is no code to save if the contract was destroyed in the block which created it (or its creation was reverted). The database refuses empty values
+		if len(a.code) > 0 {
+			if err := a.db.SetContractCode(a.data.CodeHash, a.code); err != nil {
+				return err
+			}
 		}
 		a.codeIsDirty = false
 	}
